@@ -87,7 +87,10 @@ class C02:
         s = Script()
         emit_schema(s, 0, schema)
         s.add("cwd", hx(fx))
-        s.add("init", 1, 0, flags)
+        if case.get("noerr"):
+            s.add("init", 1, 0, flags, "noerr")      # no error function: diagnostics go to stderr, never to stdout
+        else:
+            s.add("init", 1, 0, flags)
         if via == "file":
             fn = os.path.join(fx, "case_input.conf")
             s.add("mkfile", hx(fn), text_arg(parts))
@@ -196,6 +199,7 @@ class C02:
         allflags = (0, F_COMMENTS, F_IGNORE_UNKNOWN, F_NOCASE, F_COMMENTS | F_IGNORE_UNKNOWN | F_NOCASE)
         for u in unterminated:
             add("unterminated", [X(u)], flagsets=allflags, vias=("buf", "fp", "file"))
+            shapes.append({"schema": "mixed", "flags": 0, "via": "buf", "text": [X("i = 1\n" + u + "\nzz = 1\n")], "shape": "no-error-function", "noerr": True})
             add("unterminated-after", [X("i = 2\n" + u)], flagsets=(0, F_COMMENTS))
         for cm in ["#", "//", "/**/", "/* */", "##", "# ", "//\n", "#\n", "/*\n*/", "/***/", "/* * */", "#\t", "// \t "]:
             for pre in ["", "i = 1\n"]:
